@@ -12,6 +12,7 @@ structure DState where
   hdrs : List (Nat × Hdr) := []      -- headers defined by the script
   genesis : Hdr := { id := 0, prev := 999999, bits := 0x1d00ffff, time := 1231006505 }
   dumpFrom : Nat := 0     -- lowest height listed by dump (above 0 only after MockLatest)
+  unstable : Bool := false -- more than 12 live branches were seen: Go's sort order is unspecified from here on
 deriving Inhabited
 
 def showVerdict : Verdict → String
@@ -288,7 +289,20 @@ def main : IO Unit := do
       stdout.putStrLn line
       return s
     let op := opPart line
-    let (s', out) := stepLine s op
-    stdout.putStrLn s!"{op} => {out}"
+    let (s1, out) := stepLine s op
+    -- `sort.Sort` is a stable insertion sort only up to 12 elements. Once more than 12 branches are
+    -- live the order the Go code gives them (and with it Find's first hit, Longest's tie-break, the
+    -- order of branch file writes) is unspecified: the rest of that script is not compared.
+    let fresh := op.startsWith "init"
+    let unstable := if fresh then false else (s.unstable || s1.repo.branches.length > 12)
+    let s' := { s1 with unstable := unstable }
+    if unstable then
+      if !s.unstable then stdout.putStrLn "# unmodelled from here: more than 12 live branches (sort order unspecified)"
+      let obs := match line.splitOn " => " with
+        | _ :: rest => " => ".intercalate rest
+        | [] => out
+      stdout.putStrLn s!"{op} => {obs}"
+    else
+      stdout.putStrLn s!"{op} => {out}"
     return s'
   stdout.flush
